@@ -25,7 +25,8 @@ def _job(job):
     elif kind == 'symmetry':
         for ti, (b, l, r) in enumerate(nbspace.triples(seed, n, max_edits=2)):
             for a in mergespace.sample_args(rnd, 5):
-                fails, applicable = mo.symmetry_case(b, l, r, a)
+                from .c03 import KNOWN as C03_KNOWN
+                fails, applicable = mo.symmetry_case(b, l, r, a, known_crash_sites=set(C03_KNOWN))
                 if applicable:
                     cnt += 1
                     keys.add(hash((nbspace.canon(b), nbspace.canon(l), nbspace.canon(r), mergespace.args_key(a))))
